@@ -370,7 +370,7 @@ pub fn gen_plan(prop: &str, seed: u64) -> Plan {
     acts.push(XAct::Observe { out: 0 });
     acts.push(XAct::Stabilise);
     acts.push(XAct::Stabilise);
-    let knobs = Knobs { hash_seed: sched.next(), tie_break: if sched.chance(25, 100) { Some(sched.next()) } else { None }, max_height: None, crash_at: None, dense_reads: true, audit: true };
+    let knobs = Knobs { hash_seed: sched.next(), tie_break: if sched.chance(25, 100) { Some(sched.next()) } else { None }, max_height: None, crash_at: None, dense_reads: true, audit: true, stop_on: String::new() };
     Plan { engine: "map".into(), actions: acts.into_iter().map(Action::X).collect(), knobs, extra: serde_json::json!({ "prop": prop, "cfg": MapCfg { ty, op, init0, init1 } }) }
 }
 
